@@ -32,7 +32,7 @@ func ProbeDecode(decode func([]byte), data []byte) (alloc uint64, panicked strin
 	}()
 	select {
 	case panicked = <-done:
-	case <-time.After(20 * time.Second):
+	case <-time.After(45 * time.Second):
 		hung = true
 	}
 	runtime.ReadMemStats(&m1)
@@ -63,8 +63,12 @@ func JudgeDecoder(res *Result, name string, faults []DatagramFault, decode func(
 		}
 		alloc, p, hung := ProbeDecode(decode, f.Data)
 		if hung {
-			res.Violate("C04", "terminates", name+"-decoder-does-not-return"+cls, "%s: no result after 20 s", f.What)
-			return i + 1
+			// a loaded machine can make one decode slow: only a decode that is stuck twice counts
+			if _, _, again := ProbeDecode(decode, f.Data); again {
+				res.Violate("C04", "terminates", name+"-decoder-does-not-return"+cls, "%s: no result after 45 s (twice)", f.What)
+				return i + 1
+			}
+			continue
 		}
 		if alloc > maxAlloc {
 			maxAlloc = alloc
